@@ -191,6 +191,26 @@ impl SourceBlockEncodingPlan {
             source_symbol_count: symbol_count,
         }
     }
+
+    #[cfg(feature = "verif")]
+    pub fn verif_generate(symbol_count: u16, sparse_threshold: u32) -> SourceBlockEncodingPlan {
+        let symbols = vec![Symbol::new(vec![0]); symbol_count as usize];
+        let (_, ops) = gen_intermediate_symbols(&symbols, 1, sparse_threshold);
+        SourceBlockEncodingPlan {
+            operations: ops.unwrap(),
+            source_symbol_count: symbol_count,
+        }
+    }
+
+    #[cfg(feature = "verif")]
+    pub fn verif_source_symbol_count(&self) -> u16 {
+        self.source_symbol_count
+    }
+
+    #[cfg(feature = "verif")]
+    pub fn verif_num_operations(&self) -> usize {
+        self.operations.len()
+    }
 }
 
 #[cfg(feature = "std")]
@@ -217,29 +237,100 @@ fn get_or_generate_source_block_encoding_plan(symbol_count: u16) -> Arc<SourceBl
             .lock()
             .unwrap_or_else(|poisoned| poisoned.into_inner());
         if let Some(plan) = guard.plans.get(&symbol_count) {
+            #[cfg(feature = "verif")]
+            crate::verif_events::count(crate::verif_events::CACHE_HIT);
             return Arc::clone(plan);
         }
     }
+    #[cfg(feature = "verif")]
+    {
+        crate::verif_events::count(crate::verif_events::CACHE_MISS);
+        verif_cache::call_hook(1, symbol_count);
+    }
 
     let generated = Arc::new(SourceBlockEncodingPlan::generate(symbol_count));
+    #[cfg(feature = "verif")]
+    verif_cache::call_hook(2, symbol_count);
     let cache = source_block_encoding_plan_cache();
     let mut guard = cache
         .lock()
         .unwrap_or_else(|poisoned| poisoned.into_inner());
 
     if let Some(plan) = guard.plans.get(&symbol_count) {
+        #[cfg(feature = "verif")]
+        crate::verif_events::count(crate::verif_events::CACHE_LOST_RACE);
         return Arc::clone(plan);
     }
 
     if guard.plans.len() >= SOURCE_BLOCK_ENCODING_PLAN_CACHE_CAPACITY
         && let Some(evicted_symbol_count) = guard.insertion_order.pop_front()
     {
+        #[cfg(feature = "verif")]
+        crate::verif_events::count(crate::verif_events::CACHE_EVICT);
         guard.plans.remove(&evicted_symbol_count);
     }
 
+    #[cfg(feature = "verif")]
+    crate::verif_events::count(crate::verif_events::CACHE_INSERT);
     guard.insertion_order.push_back(symbol_count);
     guard.plans.insert(symbol_count, Arc::clone(&generated));
     generated
+}
+
+// Verification hook: observability of the process-wide plan cache (snapshot taken under the
+// cache's own mutex) and a callback invoked *between* the two critical sections.
+#[cfg(all(feature = "verif", feature = "std"))]
+pub mod verif_cache {
+    use super::*;
+    use std::sync::RwLock;
+
+    pub type Hook = fn(point: u8, symbol_count: u16);
+    static HOOK: RwLock<Option<Hook>> = RwLock::new(None);
+
+    pub fn set_hook(hook: Option<Hook>) {
+        *HOOK.write().unwrap_or_else(|p| p.into_inner()) = hook;
+    }
+
+    pub(crate) fn call_hook(point: u8, symbol_count: u16) {
+        let hook = *HOOK.read().unwrap_or_else(|p| p.into_inner());
+        if let Some(hook) = hook {
+            hook(point, symbol_count);
+        }
+    }
+
+    pub fn capacity() -> usize {
+        SOURCE_BLOCK_ENCODING_PLAN_CACHE_CAPACITY
+    }
+
+    pub struct Snapshot {
+        // (key, symbol count recorded in the plan, number of operations, the plan itself)
+        pub plans: Vec<(u16, u16, usize, Arc<SourceBlockEncodingPlan>)>,
+        pub insertion_order: Vec<u16>,
+    }
+
+    pub fn snapshot() -> Snapshot {
+        let guard = source_block_encoding_plan_cache()
+            .lock()
+            .unwrap_or_else(|poisoned| poisoned.into_inner());
+        let mut plans: Vec<_> = guard
+            .plans
+            .iter()
+            .map(|(k, p)| (*k, p.source_symbol_count, p.operations.len(), Arc::clone(p)))
+            .collect();
+        plans.sort_by_key(|x| x.0);
+        Snapshot {
+            plans,
+            insertion_order: guard.insertion_order.iter().copied().collect(),
+        }
+    }
+
+    pub fn clear() {
+        let mut guard = source_block_encoding_plan_cache()
+            .lock()
+            .unwrap_or_else(|poisoned| poisoned.into_inner());
+        guard.plans.clear();
+        guard.insertion_order.clear();
+    }
 }
 #[derive(Clone, Debug, PartialEq, Eq)]
 #[cfg_attr(feature = "serde_support", derive(Serialize, Deserialize))]
@@ -344,6 +435,36 @@ impl SourceBlockEncoder {
             source_symbols,
             intermediate_symbols,
         }
+    }
+
+    #[cfg(feature = "verif")]
+    pub fn verif_new_unplanned(
+        source_block_id: u8,
+        config: &ObjectTransmissionInformation,
+        data: &[u8],
+        sparse_threshold: u32,
+    ) -> SourceBlockEncoder {
+        let source_symbols = SourceBlockEncoder::create_symbols(config, data);
+        let (intermediate_symbols, _operations) = gen_intermediate_symbols(
+            &source_symbols,
+            config.symbol_size() as usize,
+            sparse_threshold,
+        );
+        SourceBlockEncoder {
+            source_block_id,
+            source_symbols,
+            intermediate_symbols: intermediate_symbols.unwrap(),
+        }
+    }
+
+    #[cfg(feature = "verif")]
+    pub fn verif_num_intermediate_symbols(&self) -> usize {
+        self.intermediate_symbols.len()
+    }
+
+    #[cfg(feature = "verif")]
+    pub fn verif_intermediate_symbol(&self, i: usize) -> &[u8] {
+        self.intermediate_symbols.get(i)
     }
 
     pub fn source_packets(&self) -> Vec<EncodingPacket> {
